@@ -1792,6 +1792,14 @@ func (t *fnTrans) havocLoop(li *loopInfo) {
 				sortOf, ok = arrSort("Int"), true
 			}
 		}
+		if !ok && strings.HasPrefix(k, "E.") {
+			// element heaps of scalar element types not met yet (bytes, integers, pointers)
+			sortOf, ok = arr2Sort("Int"), true
+		}
+		if !ok && strings.HasPrefix(k, "B.") {
+			// boxed struct components (values stored in interfaces): Int unless registered otherwise
+			sortOf, ok = arrSort("Int"), true
+		}
 		if !ok {
 			if k != "$top" && k != "$held" {
 				t.errorf("loop %d: cannot havoc heap %s (unknown sort)", li.ordinal, k)
